@@ -217,6 +217,12 @@ type syncState struct {
 	// a checkpoint. This prevents issue #997 where PASSIVE checkpoints
 	// trigger a feedback loop because stale file size exceeds threshold.
 	lastSyncedWALOffset int64
+
+	// reachedWALEnd is set once a sync of the current open session has
+	// copied the WAL up to its end. Until then the WAL may hold frames that
+	// were checkpointed while the database was not being replicated and
+	// have not been copied yet; a writer is free to restart such a WAL.
+	reachedWALEnd bool
 }
 
 type syncExecutor struct {
@@ -1852,11 +1858,12 @@ func (db *DB) verifyWithExecutor(ctx context.Context, exec *syncExecutor) (info 
 		info.offset = WALHeaderSize
 		info.salt1, info.salt2 = salt1, salt2
 
-		// Nothing has been synced since this DB was opened, so the WAL was
-		// restarted while the read lock was not held: frames written after
-		// the last synced position of the old WAL may have been checkpointed
-		// and are gone from the WAL. Only a snapshot is safe.
-		if exec.state.lastSyncedWALOffset == 0 {
+		// No sync of this open session has reached the end of the WAL yet,
+		// so the old WAL held frames that were never copied: written and
+		// checkpointed while the read lock was not held, or still being
+		// caught up on in chunks. They are gone from the WAL now. Only a
+		// snapshot is safe.
+		if !exec.state.reachedWALEnd {
 			info.reason = "wal restarted while not replicating, snapshotting"
 			return info, nil
 		}
@@ -1971,6 +1978,9 @@ type syncResult struct {
 func (db *DB) applySyncResult(state *syncState, result syncResult) {
 	state.lastSyncedWALOffset = result.newWALSize
 	state.syncedToWALEnd = result.syncedToWALEnd
+	if result.syncedToWALEnd {
+		state.reachedWALEnd = true
+	}
 	if result.pos != nil {
 		db.pos.Lock()
 		db.pos.value = result.pos
@@ -2042,6 +2052,9 @@ func (db *DB) applySyncExecutor(exec *syncExecutor, notify bool) {
 func (exec *syncExecutor) applySyncResult(result syncResult) {
 	exec.state.lastSyncedWALOffset = result.newWALSize
 	exec.state.syncedToWALEnd = result.syncedToWALEnd
+	if result.syncedToWALEnd {
+		exec.state.reachedWALEnd = true
+	}
 	if result.pos != nil {
 		exec.pos = *result.pos
 		exec.posChanged = true
